@@ -277,6 +277,33 @@ func NewEnv(o EnvOpts) *Env {
 		HubKey: hubKey, BankKey: keyBank, OrcKey: orcKey, OK: ok, OMsg: okeeper.NewMsgServerImpl(ok), useRealOracle: o.RealOracle}
 }
 
+// Restart exports the genesis of the bridge, oracle, bank and auth modules (through JSON, as a real
+// export does), initialises a fresh set of stores from it and continues there.  Staking and the
+// price/holder inputs of the harness are carried over; the block header stays.
+func (e *Env) Restart() {
+	m := keeper.MakeTestMarshaler()
+	gs := keeper.ExportGenesis(e.Ctx, e.K)
+	var gs2 types.GenesisState
+	m.MustUnmarshalJSON(m.MustMarshalJSON(&gs), &gs2)
+	ogs := okeeper.ExportGenesis(e.Ctx, e.OK)
+	var ogs2 otypes.GenesisState
+	m.MustUnmarshalJSON(m.MustMarshalJSON(&ogs), &ogs2)
+	bgs := e.Bank.ExportGenesis(e.Ctx)
+	var accounts []authtypes.AccountI
+	e.Acc.IterateAccounts(e.Ctx, func(a authtypes.AccountI) bool { accounts = append(accounts, a); return false })
+
+	ne := NewEnv(EnvOpts{Params: *gs2.Params, Tokens: gs2.TokenInfos.TokenInfos, States: gs2.ExternalStates, RealOracle: e.useRealOracle})
+	okeeper.InitGenesis(ne.Ctx, ne.OK, ogs2)
+	for _, a := range accounts {
+		ne.Acc.SetAccount(ne.Ctx, a)
+	}
+	ne.Bank.InitGenesis(ne.Ctx, bgs)
+	*ne.Staking = *e.Staking
+	*ne.Oracle = *e.Oracle
+	ne.Ctx = ne.Ctx.WithBlockHeader(e.Ctx.BlockHeader())
+	*e = *ne
+}
+
 // Fund mints coins from nothing into an account (test setup only).
 func (e *Env) Fund(addr sdk.AccAddress, coins sdk.Coins) {
 	if err := e.Bank.MintCoins(e.Ctx, types.ModuleName, coins); err != nil {
